@@ -874,7 +874,7 @@ def run(ctx):
 
     # ---- C01.e resources never grow — dataflow part --------------------------
     check_resource_cert_sites(ctx, f, evf, vi_call_ok)
-    K.check_verify_issued(ctx, f)
+    check_verify_issued(ctx, f)
     check_from_resources(ctx, f)
     check_overclaim_writers(ctx, f)
 
@@ -1083,6 +1083,167 @@ def check_resource_cert_sites(ctx, f, evf, vi_call_ok):
                        "ResourceCert.cert is the certificate being verified", where=ev.where(bi, si), detail=render(cert)[:200])
 
 
+def _variant_index(f, adt, name, default):
+    a = f.adts.get(adt)
+    if a:
+        names = [v["name"] for v in a["variants"]]
+        if name in names:
+            return names.index(name)
+    return default
+
+
+def _possible(conds, is_subject, idx):
+    """Can the discriminant of the subject be `idx` on this path?  (unconstrained = yes)"""
+    for d, allowed, excluded, dty in conds:
+        if d[0] == "discr" and is_subject(strip_deep(d[1])):
+            if allowed is not None and idx not in allowed:
+                return False
+            if excluded is not None and idx in excluded:
+                return False
+    return True
+
+
+def _is_ok_value(ret):
+    r = strip(ret)
+    if r[0] == "agg" and r[2] in ("Err", "None"):
+        return None
+    if r[0] == "call" and (r[3] or {}).get("name") == "from_residual":
+        return None
+    if r[0] == "agg" and r[2] in ("Ok", "Some") and r[3]:
+        return strip_deep(r[3][0][1])
+    return ("unknown", "opaque success value")
+
+
+def from_resources_by_paths(f, b):
+    """No feasible path of from_resources on which the choice may be Inherit returns Ok."""
+    sp = spec_paths(b)
+    if sp is None:
+        return False, "not loop-free"
+    res = b.local_name(1) or "_1"
+    inh = _variant_index(f, "repository::resources::choice::ResourcesChoice", "Inherit", 0)
+    subj = lambda t: (fpath(t) or (None,))[0] == res
+    n_ok = 0
+    for conds, ret, path in sp:
+        if _is_ok_value(ret) is None:
+            continue
+        n_ok += 1
+        if _possible(conds, subj, inh):
+            return False, "a path returning Ok admits Inherit: blocks %s" % (list(path),)
+    return n_ok > 0, "%d Ok paths, none admits Inherit" % n_ok
+
+
+def verify_issued_by_paths(f, b):
+    """IpBlocks/AsBlocks::verify_issued decided path by path (parameters by position: self = issuer's blocks, 2 = the
+    claimed resources, 3 = the overclaim policy):
+      Ok(empty())                      — anywhere;
+      Ok(issuer's own blocks)          — only where the claim can only be Inherit;
+      Ok(claimed blocks)               — only after the containment test of (issuer, claimed) came out true, or trim said Ok;
+      Ok(intersection / trim result)   — of exactly (claimed, issuer);
+      and no Ok at all on a path where the containment test came out false and the policy may be Refuse."""
+    sp = spec_paths(b)
+    if sp is None:
+        return False, "not loop-free"
+    me, res, mode = (b.local_name(i) or "_%d" % i for i in (1, 2, 3))
+    RCH = "repository::resources::choice::ResourcesChoice"
+    inh = _variant_index(f, RCH, "Inherit", 1)
+    nvar = len((f.adts.get(RCH) or {}).get("variants", [])) or 3
+    refuse = _variant_index(f, "repository::cert::Overclaim", "Refuse", 0)
+    is_res = lambda t: (fpath(t) or (None,))[0] == res
+    is_mode = lambda t: _is_param(t, mode)
+
+    def claimed(t, inner=False):
+        t = strip(t)
+        if t[0] == "field" and str(t[2]) == "0":
+            v = strip(t[1])
+            if v[0] == "variant" and v[2] == "Blocks" and is_res(strip(v[1])):
+                return True
+            if inner:
+                return claimed(v)
+        return False
+
+    def issuer(t, inner=False):
+        p = fpath(t)
+        return p is not None and p[0] == me and (p[1] == [] or (inner and len(p[1]) == 1 and p[1][0][0] == "0"))
+
+    def cover(d):
+        """containment test of exactly (issuer ⊇ claimed): contains(issuer, claimed) / is_encompassed(claimed, issuer)"""
+        at = bool_atom(d)
+        if at is None or not (isinstance(at[0], tuple) and at[0][0] == "pred"):
+            return None
+        nm, args, pos = at[0][2], at[1], at[3]
+        if nm == "contains" and len(args) == 2 and issuer(args[0], True) and claimed(args[1], True):
+            return pos
+        if nm == "is_encompassed" and len(args) == 2 and claimed(args[0], True) and issuer(args[1], True):
+            return pos
+        return None
+
+    def trim_call(t):
+        t = strip(t)
+        return t[0] == "call" and (t[3] or {}).get("name") == "trim" and len(t[2]) == 2 and claimed(t[2][0], True) and issuer(t[2][1], True)
+
+    kinds = {}
+    for conds, ret, path in sp:
+        v = _is_ok_value(ret)
+        if v is None:
+            continue
+        cov = None
+        trim_ok = False
+        for d, allowed, excluded, dty in conds:
+            if dty == "bool":
+                c = cover(d)
+                if c is not None:
+                    truth = (0 not in allowed) if allowed is not None else True
+                    cov = (c == truth) if cov is None else (cov and (c == truth))
+            elif d[0] == "discr" and trim_call(d[1]) and allowed == frozenset([0]):
+                trim_ok = True
+        if cov is False and _possible(conds, is_mode, refuse):
+            return False, "Ok although the containment test failed and the policy may be Refuse: blocks %s" % (list(path),)
+        params = {p_[0] for p_ in param_paths(v)}
+        vs = strip(v)
+        if vs[0] == "call" and (vs[3] or {}).get("name") == "empty" and not params:
+            k = "empty"
+        elif issuer(v):
+            k = "issuer's own"
+            if any(_possible(conds, is_res, i) for i in range(nvar) if i != inh):
+                return False, "Ok(issuer's blocks) where the claim need not be Inherit: blocks %s" % (list(path),)
+        elif claimed(v):
+            k = "claimed"
+            if not (cov is True or trim_ok):
+                return False, "Ok(claimed blocks) without a successful containment test: blocks %s" % (list(path),)
+        elif vs[0] == "call" and (vs[3] or {}).get("name") in ("intersection", "intersection_assign") and len(vs[2]) == 2 and \
+                ((claimed(vs[2][0]) and issuer(vs[2][1])) or (issuer(vs[2][0]) and claimed(vs[2][1]))):
+            k = "intersection"
+        elif params <= {me, res} and any(x[0] == "variant" and x[2] == "Err" and trim_call(x[1]) for x in walk(v)):
+            k = "trimmed"
+        else:
+            return False, "unrecognised success value %s on blocks %s" % (render(v)[:160], list(path))
+        kinds[k] = kinds.get(k, 0) + 1
+    need = {"empty", "issuer's own", "claimed"}
+    if not need <= set(kinds) or not ({"intersection", "trimmed"} & set(kinds)):
+        return False, "success values seen: %s" % kinds
+    return True, "success values by path: %s" % kinds
+
+
+def check_verify_issued(ctx, f):
+    tee = Tee(ctx)
+    K.check_verify_issued(tee, f)
+    memo = {}
+
+    def rescue(rule, key):
+        for own, fn in (("IpBlocks::verify_issued", "repository::resources::ipres::IpBlocks::verify_issued"),
+                        ("AsBlocks::verify_issued", "repository::resources::asres::AsBlocks::verify_issued")):
+            if own in key:
+                if fn not in memo:
+                    b = f.body(fn)
+                    try:
+                        memo[fn] = verify_issued_by_paths(f, b) if b is not None else (False, "gone")
+                    except Exception as e:
+                        memo[fn] = (False, "error %s" % e)
+                return memo[fn][1] if memo[fn][0] else None
+        return None
+    tee.flush(rescue)
+
+
 def check_from_resources(ctx, f):
     """from_resources: the Inherit arm is an error (TA must not inherit)."""
     for owner in ("repository::resources::ipres::IpBlocks", "repository::resources::asres::AsBlocks"):
@@ -1112,6 +1273,17 @@ def check_from_resources(ctx, f):
                 tgt = edges.get(inh, other)
                 ok = tgt not in reach
                 detail = "Inherit edge → bb%d, success-reachable=%s" % (tgt, tgt in reach)
+        if _EV_ONLY:
+            ok = False
+        if not ok and not _OLD_ONLY:
+            try:
+                ok2, d2 = from_resources_by_paths(f, b)
+            except Exception as e_:
+                ok2, d2 = False, "error %s" % e_
+            if ok2:
+                ok, detail = True, d2
+            else:
+                detail = {"as_written": detail, "by_paths": d2}
         ctx.ob("R-GRD", "from_resources:%s:inherit-fails" % short(owner), ok,
                "%s::from_resources returns Err for inherited resources" % short(owner), where=b.loc, detail=detail)
 
@@ -1135,6 +1307,34 @@ def check_overclaim_writers(ctx, f):
                 "repository::cert::TbsCert::set_overclaim"}
     writers = {root_fn(f, w) for w in writers if not is_derived(f.body(w))}
     extra = {w for w in writers if w not in expected}
-    ctx.ob("R-WHO", "TbsCert.overclaim-writers", not extra and len(writers) >= 2,
-           "TbsCert.overclaim is set only by the decoder, the builder constructor and set_overclaim",
-           detail={"writers": sorted(writers)})
+    ok = not extra and len(writers) >= 2 and not _EV_ONLY
+    detail = {"writers": sorted(writers)}
+    if not ok and not _OLD_ONLY:
+        # What the property needs: the policy a certificate is validated under is the one the decoder read from its
+        # policy OID (or the one a builder was told) — nothing on the way from a validation entry point writes it.
+        starts = [n for n in f.bodies if re.match(r"^repository::cert::Cert::(validate_|verify_|inspect_)\w+$", n)]
+        seen = set(starts)
+        work = list(starts)
+        while work:
+            n = work.pop()
+            b = f.body(n)
+            if b is None:
+                continue
+            nxt = [c.res for c in b.calls() if c.is_static and c.res in f.bodies] + list(f.children(n))
+            for blk in b.blocks:
+                t = blk["term"]
+                if t["t"] == "call":
+                    for a in t["args"]:
+                        k = a.get("k") if isinstance(a, dict) else None
+                        if k and "fn" in k:
+                            nxt.append(k.get("res") or k["fn"])
+            for m in nxt:
+                if m not in seen and m in f.bodies:
+                    seen.add(m)
+                    work.append(m)
+        hit = sorted(w for w in writers if w in seen)
+        detail["writers_reachable_from_validation"] = hit
+        ok = not hit and len(writers) >= 2 and "repository::cert::TbsCert::from_constructed" in writers and len(starts) >= 10
+    ctx.ob("R-WHO", "TbsCert.overclaim-writers", ok,
+           "TbsCert.overclaim is set only by the decoder and by builder code (constructor, setters); no function reachable "
+           "from a validation entry point writes it", detail=detail)
